@@ -64,13 +64,21 @@ package binary
 // trivially serializable, the struct has no padding at all (its size is the sum of ALL field sizes) and the fields
 // are laid out in declaration order (each offset is larger than the previous one). -------------------------------
 //@ func writeIsTriviallySerializableSpecialization@emits:"IsTriviallySerializable<decltype(__T__::%s)>::value"
-//@   property C01
+//@   property C01,C14
 //@   ensures emitted("IsTriviallySerializable<decltype(__T__::%s)>::value") == 1 && emittedArg("IsTriviallySerializable<decltype(__T__::%s)>::value", 0, 0, string) == common.FieldIdentifierName(f.Name)
 //@ func writeIsTriviallySerializableSpecialization@emits:"sizeof(__T__::%s)"
-//@   property C01
+//@   property C01,C14
 //@   ensures emitted("sizeof(__T__::%s)") == 1 && emittedArg("sizeof(__T__::%s)", 0, 0, string) == common.FieldIdentifierName(f.Name)
+// The layout test that guards the raw-copy fast path names struct members: every member is named exactly as the struct
+// declares it (cpp/types prints FieldIdentifierName(field.Name)); a name mapped twice (`r2D2` -> `r2d2` -> `r2d_2`)
+// is not a member and the generated header does not compile.
+//@ func writeIsTriviallySerializableSpecialization@emits:"offsetof(__T__, %s) < offsetof(__T__, %s)"
+//@   property C01,C14,C08
+//@   inline
+//@   iteration 0: consecutive_fields_are_compared_by_their_member_names: i > 0 ==> emitted("offsetof(__T__, %s) < offsetof(__T__, %s)") == 1 && emittedArg("offsetof(__T__, %s) < offsetof(__T__, %s)", 0, 0, string) == common.FieldIdentifierName(t.Fields[i-1].Name) && emittedArg("offsetof(__T__, %s) < offsetof(__T__, %s)", 0, 1, string) == common.FieldIdentifierName(f.Name)
+//@   iteration 0: the_first_field_has_no_predecessor: i == 0 ==> emitted("offsetof(__T__, %s) < offsetof(__T__, %s)") == 0
 //@ func writeIsTriviallySerializableSpecialization
-//@   property C01
+//@   property C01,C14
 //@   ensures every_field_must_be_trivial: typeof(t) == *dsl.RecordDefinition && t.(*dsl.RecordDefinition) != nil ==> emitted("IsTriviallySerializable<decltype(__T__::%s)>::value") == old(len(t.(*dsl.RecordDefinition).Fields)) && (forall k in 0..old(len(t.(*dsl.RecordDefinition).Fields)) :: emittedArg("IsTriviallySerializable<decltype(__T__::%s)>::value", k, 0, string) == common.FieldIdentifierName(old(t.(*dsl.RecordDefinition).Fields[k].Name)))
 //@   ensures size_is_sum_of_all_fields: typeof(t) == *dsl.RecordDefinition && t.(*dsl.RecordDefinition) != nil && old(len(t.(*dsl.RecordDefinition).Fields)) > 0 ==> emitted("(sizeof(__T__) == (") == 1 && emitted("sizeof(__T__::%s)") == old(len(t.(*dsl.RecordDefinition).Fields)) && (forall k in 0..old(len(t.(*dsl.RecordDefinition).Fields)) :: emittedArg("sizeof(__T__::%s)", k, 0, string) == common.FieldIdentifierName(old(t.(*dsl.RecordDefinition).Fields[k].Name)))
 
